@@ -902,7 +902,7 @@ impl InterpDriver {
                         // stepping a deeply nested program is cubic in the depth (every step clones the remaining
                         // tree, the state and the opcode history); the probe is about recursion depth, so a deep
                         // program is stepped only a little
-                        if n > 200 && steps >= 40 {
+                        if n > 200 && steps >= 6 {
                             break;
                         }
                     }
